@@ -49,6 +49,7 @@ class Result:
         self.outcomes = {}
         self.samples = []
         self.lemmas = []
+        self.params = {}
 
     def ok(self):
         if self.unsupported:
@@ -86,6 +87,7 @@ class Result:
             'outcomes': self.outcomes,
             'unsupported': self.unsupported[:3],
             'lemmas': self.lemmas,
+            'params': self.params,
         }
 
 
@@ -189,6 +191,22 @@ class ScenarioInterp(Interp):
     def finding_active(self, fid):
         """is the open known finding `fid` still reproducing natively on the current tree?"""
         return fid in (self.opts.get('active_findings') or ())
+
+    def param(self, name, options):
+        """a dimension of the scenario that is concretised (fee configuration, lock duration ...): the quick tier takes the option selected by
+        VERIF_SEED (rotating with the seed, option 0 for seed 0), the thorough tier explores every option.  The index is recorded with the
+        choices so that replay builders reproduce it."""
+        key = 'param:' + name
+        if self.opts.get('tier') == 'thorough' and len(options) > 1:
+            idx = self.choose(len(options), key)
+        else:
+            seed = int(self.opts.get('seed', 0) or 0)
+            # different dimensions rotate at different speeds so that seeds cover combinations
+            h = sum(ord(c) for c in name)
+            idx = (seed * (1 + h % 3) + (seed // len(options)) * (h % 2)) % len(options) if seed else 0
+            self.choices[key] = idx
+        self.result.params[name] = len(options)
+        return options[idx]
 
     def lemma(self, cond, because):
         """assume a fact established by another obligation of the same run (assume-guarantee)"""
